@@ -1303,7 +1303,8 @@ Lemma dok_set_children A cfg ft s p cont args :
   dok A s (fst (Dag.set_children cfg ft s p cont args)).
 Proof.
   intros Hc Ap Ha. unfold Dag.set_children.
-  destruct (Dag.check_children s p cont args); cbn [fst]; [now apply dok_refl|].
+  destruct (Dag.materialise cont); cbn [fst]; [now apply dok_refl|].
+  destruct (Dag.check_children_loop s p args []); cbn [fst]; [now apply dok_refl|].
   destruct (Dag.dfault_eqb ft Dag.DPreFail); cbn [fst]; [now apply dok_refl|].
   assert (Hn : forall x, In x (Dag.ids_of args) -> A x = true) by (intros x; now apply In_dids_of).
   assert (H1 : dok A s (Dag.assign_children s p (Dag.ids_of args))).
